@@ -42,13 +42,17 @@ func init() {
 			"M-pop3 against the login snapshot), ending by QUIT, drop or idle timeout, both back ends. Oracle for both streams: the store after the session, " +
 			"with snapshot members identified by the delivery they stem from (not by id alone): after QUIT exactly the marked snapshot members that still " +
 			"existed are gone, after every other ending nothing is, every message delivered after the login is still there (in 'interfere' every " +
-			"remaining message also reads back the octets that were delivered).",
+			"remaining message also reads back the octets that were delivered). " +
+			"Ending 'client gone' (added after seeded change C13-12, both streams): 'QUIT<CRLF>' - alone or followed by further bytes - queued and the client side " +
+			"closed without reading, so the complete QUIT line is read and the write of its reply fails: judged by the QUIT oracle (in TRANSACTION state exactly the " +
+			"marked snapshot members that still existed are gone); 'QUIT' without any line terminator, then closed: nothing is removed.",
 		Assumptions: []string{
 			"sessions are served through VerifServeConn (the real startSession) on an in-memory net.Conn",
 			"the mailbox of a session is the single argument of the most recent acknowledged 'USER name' (or the first argument of 'APOP name digest'); logins through other shapes that are acknowledged are only checked for reply shape and for an unchanged store when nothing was marked",
 			"arguments that are not a plain decimal number alone (sign, leading zero, extra arguments, doubled or trailing spaces) may be refused or be read as their first number; either is accepted",
 			"RETR/TOP content is only required to be message n (unique marker line present), dot-terminated; RETR/TOP of a message marked deleted, or removed from the store by another party during the session, is not judged",
 			"a number followed by the word 'messages' in the first line of a login/LIST/UIDL reply is taken to be a message count",
+			"a session whose complete, CRLF-terminated QUIT line was queued before the client side closed has ended by QUIT, whether or not the reply could be written; a rest of input that ends without any line terminator is not a command",
 			"all deliveries and outside removals are made by the harness while the session is blocked reading its next command, so the harness knows which delivery every stored message stems from; a message found after the session under the id the store returned for a delivery is taken to be that delivery (stream 'interfere' also compares its source)",
 		},
 		MinObs: func(tier string) map[string]int64 {
@@ -75,6 +79,13 @@ func init() {
 				"ix_marks_emptied_redelivered_then_idle-timeout:mem": 15, "ix_marks_emptied_redelivered_then_idle-timeout:file": 15,
 				"ix_later_deliveries_verified_present": 500, "ix_marked_members_removed_by_quit": 50,
 				"later_deliveries_found_after_session": 1000, "marked_messages_removed_by_quit": 100,
+				// ending "client gone" (gone.go)
+				"gone_quit_reply_unwritable": 300, "gone_quit_with_marks_committed:mem": 50, "gone_quit_with_marks_committed:file": 50,
+				"gone_quit_with_marks_committed_reply_unwritable": 100, "gone_quit_plus_bytes_with_marks_committed": 30,
+				"gone_quit_marked_members_removed":                      40,
+				"gone_unterminated_quit_with_marks_nothing_removed:mem": 20, "gone_unterminated_quit_with_marks_nothing_removed:file": 20,
+				"ix_end:quit-gone": 100, "ix_end:unterminated-quit-gone": 40,
+				"ix_marks_emptied_redelivered_then_quit-gone:mem": 20, "ix_marks_emptied_redelivered_then_quit-gone:file": 20,
 			}
 		},
 		// Generous: file-store sessions stall for minutes when other runs saturate the disk.
@@ -140,6 +151,7 @@ type psess struct {
 	loginSerial int  // s.uniq when the login was acknowledged: larger serials were delivered after login
 	content     bool // compare the full sources after the session (stream "interfere")
 	ix          *ixInfo
+	gone        *goneInfo // set when the session ended by the client vanishing behind (part of) a QUIT line, see gone.go
 
 	events   map[string]bool
 	compared int
@@ -292,6 +304,13 @@ func runSession(c *fw.Ctx, idx int, r *fw.Rand) {
 		}
 		cm := s.next()
 		if cm.kind == "close" {
+			break
+		}
+		if cm.kind == "gone" {
+			// QUIT (or an unterminated piece of it) queued and the client gone without reading (gone.go)
+			if !s.vanish(cm.argClass) {
+				return
+			}
 			break
 		}
 		s.play(cm)
@@ -462,6 +481,10 @@ func (s *psess) finish() {
 	lenientQuit := s.ending == "quit-refused"
 	s.c.Count("end:"+label, 1)
 	s.ending = label
+	if s.gone != nil {
+		s.ending = label + "/gone:" + s.gone.variant
+		s.c.Count("end_gone:"+s.gone.variant+":"+label, 1)
+	}
 	if s.state == "LENIENT" && s.anyDele {
 		s.c.Count("store_not_compared_noncanonical_login", 1)
 		return
@@ -537,6 +560,9 @@ func (s *psess) finish() {
 		case commit:
 			key = "quit-removed-wrong-message"
 		}
+		if s.gone != nil {
+			key += s.gone.keySuffix()
+		}
 		s.fail(key, fmt.Sprintf("after ending %q mailbox %q holds ids %v, expected %v (live before the ending %v)", s.ending, n, got, want, s.live[n]))
 		return
 	}
@@ -568,6 +594,7 @@ func (s *psess) finish() {
 		if s.ix != nil {
 			s.ix.later, s.ix.removedByQuit = later, markedStillLive
 		}
+		s.goneEvidence(commit, nmarked, markedStillLive)
 	}
 }
 
@@ -810,7 +837,9 @@ func (s *psess) next() cmd {
 			}
 			return s.userCmd()
 		}
-		switch r.Weighted([]int{10, 8, 8, 10, 5, 4, 2}) {
+		switch r.Weighted([]int{10, 8, 8, 10, 5, 4, 2, 1}) {
+		case 7:
+			return cmd{kind: "gone", argClass: s.goneVariant()}
 		case 0:
 			return s.userCmd()
 		case 1:
@@ -826,7 +855,9 @@ func (s *psess) next() cmd {
 		}
 		return cmd{kind: "close"}
 	}
-	switch r.Weighted([]int{86, 4, 3, 4, 3}) {
+	switch r.Weighted([]int{84, 4, 3, 4, 3, 3}) {
+	case 5:
+		return cmd{kind: "gone", argClass: s.goneVariant()}
 	case 0:
 		return s.transCmd()
 	case 1:
